@@ -109,9 +109,13 @@ func unfoldStep(c *core.Ctx, s *Stage) {
 		if p.To != h {
 			continue
 		}
-		if len(p.Events(ir.KCall)) != 0 {
-			ok = false
-			c.Fail("unfold-step", name, g.Fn.Pos(), "the step function is applied before the seed is delivered")
+		for _, st := range p.Events(ir.KCall) {
+			// obtaining the cancellation signal ahead of the loop (done := ctx.Done()) applies nothing
+			if isApplyRole(st) || !(st.Method != nil && st.Method.Name() == "Done" && len(st.A) > 0 && isContextType(st.A[0].Typ)) {
+				ok = false
+				c.Fail("unfold-step", name, g.Fn.Pos(), "the step function is applied before the seed is delivered")
+				break
+			}
 		}
 	}
 	for _, p := range g.An.Segs[h] {
@@ -463,7 +467,27 @@ func runC13(c *core.Ctx) {
 	nTok, nWait := 0, 0
 	if okT {
 		k := counters[0]
-		// guardAt: polarity of the branch (sym+d < ops) on path p, searched in steps [from, to)
+		// direction: the counter counts the tokens handed out (0 .. ops, the form described above) or the tokens
+		// left in the cycle (ops .. 0: token only under counter >= 1, counter-1 each, cycles start at ops). Read
+		// off the value the counter has when a cycle starts.
+		down := false
+		for _, ps := range pacer.An.Segs {
+			for _, q := range ps {
+				if q.To == k.h && q.From != k.h {
+					if v := q.PhiOut[k.phi]; v != nil && ir.Same(v, opsT) {
+						down = true
+					}
+				}
+			}
+		}
+		sgn := int64(1)
+		if down {
+			sgn = -1
+		}
+		// guardAt: what path p knows in steps [from, to) about "a further token may be handed out" once d tokens
+		// were sent since base (the counter at the head; nil = d is the counter's constant value itself):
+		// +1 allowed, -1 the cycle is full, 0 unknown. Counting up that is the branch (base+d < ops); counting
+		// down it is !(base-d < 1) or (0 < base-d).
 		guardAt := func(p *ir.Path, base *ir.Term, d int64, from, to int) int {
 			for i := from; i < to && i < len(p.Steps); i++ {
 				st := &p.Steps[i]
@@ -471,12 +495,29 @@ func runC13(c *core.Ctx) {
 					continue
 				}
 				at := st.Atom
-				if at.Op == "bin" && at.Aux == "<" && ir.Same(at.Args[1], opsT) {
+				if at.Op != "bin" || at.Aux != "<" {
+					continue
+				}
+				isCnt := func(x *ir.Term) bool {
 					if base == nil {
-						if v, isK := at.Args[0].IntConst(); isK && v == d {
-							return polInt(st.Pol)
+						if down {
+							dd, isK := plusConst(x, opsT)
+							return isK && dd == sgn*d
 						}
-					} else if dd, isK := plusConst(at.Args[0], base); isK && dd == d {
+						v, isK := x.IntConst()
+						return isK && v == d
+					}
+					dd, isK := plusConst(x, base)
+					return isK && dd == sgn*d
+				}
+				if !down && ir.Same(at.Args[1], opsT) && isCnt(at.Args[0]) {
+					return polInt(st.Pol)
+				}
+				if down {
+					if one, isK := at.Args[1].IntConst(); isK && one == 1 && isCnt(at.Args[0]) {
+						return -polInt(st.Pol)
+					}
+					if zero, isK := at.Args[0].IntConst(); isK && zero == 0 && isCnt(at.Args[1]) {
 						return polInt(st.Pol)
 					}
 				}
@@ -492,8 +533,10 @@ func runC13(c *core.Ctx) {
 				}
 				v := q.PhiOut[k.phi]
 				g := 0
-				if cv, isK := v.IntConst(); isK {
+				if cv, isK := v.IntConst(); isK && !down {
 					g = guardAt(q, nil, cv, 0, len(q.Steps))
+				} else if down && ir.Same(v, opsT) {
+					g = guardAt(q, nil, 0, 0, len(q.Steps))
 				} else if q.From == k.h {
 					if d, isK := plusConst(v, k.sym); isK {
 						g = guardAt(q, k.sym, d, 0, len(q.Steps))
@@ -577,16 +620,23 @@ func runC13(c *core.Ctx) {
 				// counter update on returning to its loop
 				if p.To == k.h {
 					v := p.PhiOut[k.phi]
+					fresh := func(v *ir.Term) bool {
+						if down {
+							return ir.Same(v, opsT)
+						}
+						cv, isK := v.IntConst()
+						return isK && cv == 0
+					}
 					if waitIdx >= 0 {
-						if cv, isK := v.IntConst(); !isK || cv != 0 {
-							okW, whyW = false, "after the interval wait the token counter restarts from "+short(v)+", expected 0"
+						if !fresh(v) {
+							okW, whyW = false, "after the interval wait the token counter restarts from "+short(v)+", expected a fresh cycle (0 counting up, ops counting down)"
 						}
 					} else if h == k.h {
-						if d, isK := plusConst(v, k.sym); !isK || d != t {
+						if d, isK := plusConst(v, k.sym); !isK || d != sgn*t {
 							okT, whyT = false, fmt.Sprintf("a pass that sent %d token(s) changes the counter by %d", t, d)
 						}
-					} else if cv, isK := v.IntConst(); !isK || cv != 0 {
-						okT, whyT = false, "a cycle starts with the token counter at "+short(v)+", expected 0"
+					} else if !fresh(v) {
+						okT, whyT = false, "a cycle starts with the token counter at "+short(v)+", expected a fresh cycle (0 counting up, ops counting down)"
 					}
 				}
 			}
